@@ -24,6 +24,36 @@ OPS_C16 = (["copy"] * 4 + ["bounds"] * 2 + ["assign"] * 3 + ["assume"] * 3 + ["a
             "wassign", "expand", "project", "rename"])
 OPS = {"C03": OPS_C03, "C04": OPS_C04, "C05": OPS_C05, "C16": OPS_C16}
 
+# minimal histories of the findings made so far (run first on every domain)
+CORPUS = [
+    # split_oct::assign left x unchanged (domall-1)
+    "hist 2 4 ; assume 0 1 C le E 1 -1 0 -3 ; arith 0 add 0 2 v 3 ; q_csts 0",
+    "hist 2 4 ; assume 1 1 C le E 1 -1 2 -1 ; assign 1 2 E 2 7 0 -4096 1 0",
+    "hist 4 2 ; assume 2 1 C ne E 1 1 0 0 ; arith 2 srem 1 0 k 1000 ; assign 2 1 E 2 -1 0 -1 1 -1 ; assign 2 1 E 2 2 0 2 1 10 ; q_csts 2",
+    # disequations with a rounding division in zones/octagons (domall-2)
+    "hist 2 2 ; assume 0 1 C le E 1 -1 0 0 ; assume 0 1 C ne E 1 3 0 1 ; assume 1 1 C le E 1 1 0 0 ; assume 1 1 C ne E 1 3 0 -1",
+    # inclusion with a variable bound only on the right: term / uf (domall-3)
+    "hist 4 5 ; assign 3 3 E 0 -1 ; q_leq 0 3 ; q_csts 3",
+    "hist 3 2 ; assume 0 2 C le E 2 -1 0 -4096 1 -1 C le E 1 -3 0 3 ; q_leq 1 0 ; q_csts 0",
+    "hist 2 5 ; assign 0 2 E 1 2 2 0 ; forget 0 1 1 ; expand 0 2 1 ; q_leq 1 0 ; q_csts 0",
+    # powerset forget after a join (domall-4)
+    "hist 3 5 ; assign 1 1 E 1 1 3 0 ; assign 2 2 E 1 1 4 10 ; join 1 1 2 ; forget 1 1 1",
+    # value partitioning: queries with an active partition (domall-5)
+    "hist 3 2 ; assign 0 0 E 0 10 ; assign 1 0 E 0 20 ; assign 1 1 E 0 7 ; join 2 0 1 ; q_csts 2 ; q_entails 2 C le E 1 1 0 -20",
+    # packing: forget on top packs, double rename, empty meet (domall-6/7/8)
+    "hist 2 2 ; assign 0 1 E 2 3 0 2 1 -7 ; forget 0 1 1 ; rename 0 1 0 1",
+    "hist 2 5 ; assign 0 4 E 0 0 ; forget 0 1 0 ; rename 0 1 4 0 ; q_csts 0",
+    "hist 3 3 ; assign 0 2 E 2 -4096 0 1 2 -5 ; assume 1 1 C lt E 1 -1 2 10 ; assume 0 2 C le E 1 -1 1 -100 C le E 1 1 2 0 ; meet 2 0 1",
+    # fixed tvpi: rename, ghost updates (domall-9/10), integrality of the ghosts (known finding)
+    "hist 3 3 ; assume 0 2 C le E 1 1 0 -10 C le E 1 -1 1 -5 ; arith 0 sdiv 2 0 k -2",
+    "hist 4 4 ; arith 0 mul 3 3 k 2 ; assume 0 1 C le E 1 -1 3 -2",
+    "hist 3 2 ; assign 0 0 E 1 3 0 3 ; assign 0 1 E 1 -1 0 1 ; assume 0 3 C le E 1 -1 1 -10 C le E 1 -1 0 -10 C le E 1 -1 0 -3 ; q_at 0 ; q_at 0",
+    "hist 2 2 ; assume 0 2 C eq E 1 1000 1 1000 C lt E 1 1 1 0",
+    "hist 2 3 ; assume 0 2 C lt E 1 1 0 0 C lt E 1 1 1 0 ; assume 0 1 C le E 3 -1 0 -1 1 2 2 0",
+    # lookahead widening on non-ascending arguments (made ascending for that domain)
+    "hist 3 3 ; assume 2 1 C le E 1 1 2 -10 ; assume 1 3 C le E 1 1 2 -10 C le E 1 -1 0 -10 C le E 1 1 2 3 ; widen 0 2 1",
+]
+
 SMALLMAP = {2 ** 31: 1000, -(2 ** 31): -1000, 2 ** 62: 4096, -(2 ** 62): -4096, 2 ** 40: 5000}
 
 
@@ -81,6 +111,23 @@ def with_csts_after_leq(line):
     return " ; ".join(out)
 
 
+MUTATING = ("assign", "arith", "assume", "forget", "project", "rename", "expand", "join", "meet", "widen", "widenthr",
+            "narrow", "select", "wassign", "copy")
+
+
+def with_csts(line, rng, p=0.35):
+    """fetch the exported constraints after a share of the state-changing operations (the
+    only way a relational fact can be compared with the stores)"""
+    ops = line.split(" ; ")
+    out = [ops[0]]
+    for o in ops[1:]:
+        out.append(o)
+        t = o.split()
+        if t[0] in MUTATING and rng.random() < p:
+            out.append("q_csts " + t[1])
+    return " ; ".join(out)
+
+
 def with_normalize(line, rng):
     """the same history with normalize()/minimize()/at queries injected at random points;
     returns (new line, indices (in the new op list) of the original ops)"""
@@ -108,6 +155,8 @@ def histories(seed, prop, n, big=False, drop=(), maxvars=5, maxops=30, asc_widen
         l = sanitize(domhist.gen_history(rng, opts_rel if (rel and i % 2) else opts), big, drop)
         if prop == "C04":
             l = with_csts_after_leq(l)
+        elif rel:
+            l = with_csts(l, rng)
         if asc_widen:
             l = ascending_widen(l)
         out.append(l)
